@@ -198,6 +198,10 @@ def run(lines, out, args):
                 o = st["classes"][int(f[2])]()
                 st["objs"][int(f[1])] = o
                 st["objinv"][id(o)] = int(f[1])
+            elif op == "idecl":
+                # a (factory) instance decorated with implementer(I): an Implements lands in the instance's own __dict__
+                from zope.interface import implementer
+                implementer(st["ifs"][int(f[2])])(st["objs"][int(f[1])])
             elif op in ("add", "only", "first"):
                 c = st["classes"][int(f[1])]
                 xs = [st["ifs"][int(x)] for x in f[2].split()]
